@@ -13,4 +13,5 @@ MCRegs3 == {Reg("idx", 4, 272, TRUE, "", 2), Reg("all", 0, 0, FALSE, "", 3), Reg
 \* cur / arg of an idle process are don't-cares: one initial value
 MCInit == Init /\ cur = [p \in D |-> CCR] /\ arg = [r \in R |-> Reg("all", 0, 0, FALSE, "", 3)]
 MCSpec == MCInit /\ [][Next]_vars
+MCSpecLeak == MCInit /\ [][NextLeak]_vars
 =============================================================================
